@@ -69,6 +69,13 @@ def run_case(ctx, rng, idx):
         return directed_case(ctx, rng, idx)
     from hypergraphx.generation import configuration_model as cm
 
+    if idx == 1 or (ctx.tier == "thorough" and idx % 700 == 9):
+        from ..gen import big_hypergraph
+
+        ctx.event("big-hypergraph")
+        hb = big_hypergraph(rng, sizes=(2, 2, 3, 3, 4, 5), n=rng.randint(40, 80), m=rng.randint(150, 300))
+        undirected(ctx, rng, idx, hb, [tuple(e) for e in hb.get_edges()], phase=1)
+        return
     h, edges = gen_h(rng)
     undirected(ctx, rng, idx, h, edges, phase=0)
 
@@ -111,7 +118,7 @@ def undirected(ctx, rng, idx, h, edges, phase):
                     chain["bad"] = "degree-changed"
 
         def wit(extra=None):
-            return {"edges": edges, "params": kw, "numpy_seed": seed, "extra": repr(extra)[:900]}
+            return {"edges": edges if len(edges) <= 40 else len(edges), "params": kw, "numpy_seed": seed, "extra": repr(extra)[:900]}
 
         np.random.seed(seed)
         if code is not None:
